@@ -130,6 +130,12 @@ def run(tier, rep):
         out_s = explore_stateful_bfs(pool, l0_all, JUDGE, cap=20000 if tier == "quick" else 80000)
         _report(rep, "G2_stateful_L0_all_schedules", out_s, "unbounded (state-pruned)")
         rep.section("G2_stateful_L0_all_schedules", abstract_states=sum(st["abstract_states"] for st in out_s.values()), pruned_revisits=sum(st["pruned"] for st in out_s.values()))
+        # L5 (supervisor feeding a consumer: 4 threads) at granularity G1: all schedules of the short histories
+        l5h = [[["reset"], ["stop"]]] if tier == "quick" else [[["reset"], ["stop"]], [["run"], ["stop"]], [["reset"], ["step"], ["stop"]]]
+        l5 = {("L5", H.hist_name(h), "prio", "SIM", "G1"): dict(spec=H.L5(), user=h, policy="prio", clock="SIM", rtf=0) for h in l5h}
+        out_s = explore_stateful_bfs(pool, l5, JUDGE, cap=12000 if tier == "quick" else 60000)
+        _report(rep, "G1_stateful_L5_all_schedules", out_s, "unbounded (state-pruned)")
+        rep.section("G1_stateful_L5_all_schedules", abstract_states=sum(st["abstract_states"] for st in out_s.values()))
         if tier == "thorough":  # the same job without relying on the abstraction: deviation-bounded
             l0_run = {k: v for k, v in l0.items() if k[1] == "r."}
             out_g = explore_many(pool, l0_run, 3, JUDGE)
